@@ -525,8 +525,12 @@ func (s *vfSim) startSNAP(gen *vfScriptRand) bool {
 			co[i] = o
 		}
 		a, err := ClientWithOptions(co...)
+		s.mu.Lock()
 		s.connErr[side] = err
-		s.assoc[side] = a
+		if a != nil {
+			s.assoc[side] = a
+		}
+		s.mu.Unlock()
 		close(s.connDone[side])
 	}
 	s.estabAt = s.net.now()
